@@ -107,6 +107,9 @@ def gen_cases(tier):
             for S in itertools.combinations_with_replacement((1, 2, 3, 4), n):
                 for typ in ("list", "tuple"):
                     yield {"cls": "NumberPartitioning", "S": list(S), "type": typ}
+        for S in ([1, -1], [2, -1, 1], [3, -1, -2, 4], [-2, -2], [1, 2, -3, 4], [-1, -2, -3]):
+            for typ in ("list", "tuple"):
+                yield {"cls": "NumberPartitioning", "S": list(S), "type": typ}
         # AlternatingSectorsChain
         for N in range(1, 7):
             for cl in (2, 3):
